@@ -55,7 +55,7 @@ def chroma_hit(rc, ec, tol, i):
     return ec[i] != 0 and rc[i] != 0 and absr(d - 1200.0 * floor(d / 1200 + 0.5)) < tol
 
 
-@contract("mir_eval.melody.raw_pitch_accuracy", props="C01 C04 C09 C07 C14")
+@contract("mir_eval.melody.raw_pitch_accuracy", props="C01 C02 C04 C09 C07 C14")
 def raw_pitch_accuracy(ref_voicing: Arr(Real, None), ref_cent: Arr(Real, None), est_voicing: Arr(Real, None), est_cent: Arr(Real, None),
                        cent_tolerance: Real = 50.0) -> Real:
     n = length(ref_voicing)
@@ -64,14 +64,14 @@ def raw_pitch_accuracy(ref_voicing: Arr(Real, None), ref_cent: Arr(Real, None), 
     nz = array_of(n, lambda i: ite(est_cent[i] != 0 and ref_cent[i] != 0, 1, 0), dtype='int')
     num = array_of(n, lambda i: ite(pitch_hit(ref_cent, est_cent, cent_tolerance, i), ref_voicing[i], 0.0))
     ensures(implies(n == 0 or V == 0 or sum_of(nz) == 0, result == 0), label='degenerate', props="C04 C09")
-    ensures(implies(n > 0 and V != 0 and sum_of(nz) != 0, result == sum_of(num) / V), label='def', props="C04 C09")
+    ensures(implies(n > 0 and V != 0 and sum_of(nz) != 0, result == sum_of(num) / V), label='def', props="C04 C09 C02")
     sum_nonneg(ref_voicing)
     sum_nonneg(num)
     sum_le(num, ref_voicing)
     ensures(0 <= result, result <= 1, label='range', props="C01")
 
 
-@contract("mir_eval.melody.raw_chroma_accuracy", props="C01 C04 C09 C07 C14")
+@contract("mir_eval.melody.raw_chroma_accuracy", props="C01 C02 C04 C09 C07 C14")
 def raw_chroma_accuracy(ref_voicing: Arr(Real, None), ref_cent: Arr(Real, None), est_voicing: Arr(Real, None), est_cent: Arr(Real, None),
                         cent_tolerance: Real = 50.0) -> Real:
     n = length(ref_voicing)
@@ -80,7 +80,7 @@ def raw_chroma_accuracy(ref_voicing: Arr(Real, None), ref_cent: Arr(Real, None),
     nz = array_of(n, lambda i: ite(est_cent[i] != 0 and ref_cent[i] != 0, 1, 0), dtype='int')
     num = array_of(n, lambda i: ite(chroma_hit(ref_cent, est_cent, cent_tolerance, i), ref_voicing[i], 0.0))
     ensures(implies(n == 0 or V == 0 or sum_of(nz) == 0, result == 0), label='degenerate', props="C04 C09")
-    ensures(implies(n > 0 and V != 0 and sum_of(nz) != 0, result == sum_of(num) / V), label='def', props="C04 C09")
+    ensures(implies(n > 0 and V != 0 and sum_of(nz) != 0, result == sum_of(num) / V), label='def', props="C04 C09 C02")
     sum_nonneg(ref_voicing)
     sum_nonneg(num)
     sum_le(num, ref_voicing)
@@ -112,7 +112,7 @@ def lemma_cent_tolerance_monotone(rv: Arr(Real, None), rc: Arr(Real, None), ev: 
             raw_chroma_accuracy(rv, rc, ev, ec, t1) <= raw_chroma_accuracy(rv, rc, ev, ec, t2), label='monotone')
 
 
-@contract("mir_eval.melody.overall_accuracy", props="C01 C04 C09 C14")
+@contract("mir_eval.melody.overall_accuracy", props="C01 C02 C04 C09 C14")
 def overall_accuracy(ref_voicing: Arr(Real, None), ref_cent: Arr(Real, None), est_voicing: Arr(Real, None), est_cent: Arr(Real, None),
                      cent_tolerance: Real = 50.0) -> Real:
     """Bittner & Bosch: (ratio * sum over voiced frames of reward * estimated voicing * [pitch correct]  +  sum over unvoiced
@@ -125,7 +125,7 @@ def overall_accuracy(ref_voicing: Arr(Real, None), ref_cent: Arr(Real, None), es
     unvoiced_ok = array_of(n, lambda i: (1.0 - ite(ref_voicing[i] > 0, 1.0, 0.0)) * (1.0 - est_voicing[i]))
     ratio = ite(V == 0, 0.0, sum_of(binary) / V)
     ensures(implies(n == 0, result == 0), label='empty', props="C04")
-    ensures(implies(n > 0, result == (ratio * sum_of(voiced_hits) + sum_of(unvoiced_ok)) / n), label='def', props="C04 C09")
+    ensures(implies(n > 0, result == (ratio * sum_of(voiced_hits) + sum_of(unvoiced_ok)) / n), label='def', props="C04 C09 C02")
     sum_nonneg(ref_voicing)
     sum_nonneg(binary)
     sum_nonneg(voiced_hits)
